@@ -482,6 +482,13 @@ theorem pinv_handle (s : Sys) (self : Cid) (e : Env) (hL : SlotsInv s) (hi : Pau
   split
   · split
     · exact hi
+    · refine pinv_sameP (sameP_deadLetter _ _) ?_
+      apply pinv_upd none s self _ _ hi
+      intro hne hk hz hr
+      by_cases hkg : (s.ctx self).state = .killing
+      · simp [hkg] at hk
+      · simp only [hkg, if_false] at hk hz hr ⊢
+        exact hi self hne hk hz hr
     · exact pinv_sameP (sameP_deadLetter _ _) hi
   · rename_i hcond
     have hst : (s.ctx self).zombie = true ∨ (s.ctx self).state ≠ .killed := by
@@ -524,15 +531,22 @@ theorem pinv_handle (s : Sys) (self : Cid) (e : Env) (hL : SlotsInv s) (hi : Pau
           · exact hs
           · exact Or.inr (by simp)
           · exact pinv_upd none s self _ (fun _ hk _ _ => by simp at hk) hi
-        · exact hi
+        · apply pinv_upd none s self _ _ hi
+          intro _ hk hz _
+          simp only at hk hz
+          rcases hst with h | h
+          · rw [h] at hz; cases hz
+          · exact absurd hk h
     · exact pinv_onKilled _ _ _ _ _ hs hst hi
     · exact pinv_onSupervise _ _ _ hst hi
     · exact pause true
     · exact pause false
-    · refine pinv_doKill _ self _ _ _ ?_ ?_ ?_
-      · exact hs
-      · exact Or.inr (by simp)
-      · exact pinv_upd none s self _ (fun _ hk _ _ => by simp at hk) hi
+    · split
+      · refine pinv_doKill _ self _ _ _ ?_ ?_ ?_
+        · exact hs
+        · exact Or.inr (by simp)
+        · exact pinv_upd none s self _ (fun _ hk _ _ => by simp at hk) hi
+      · exact hi
     · repeat' split
       all_goals first
         | exact hi
